@@ -210,7 +210,7 @@ Section Oracles.
      taken after gorilla/mux has routed it: which handler, with which path variable / decoded body. *)
   Inductive hreq :=
   | HDestAdd (body : drule + bytes)      (* POST|PUT|UPDATE /api/destinations, body decoded by the oracle *)
-  | HDestDelete (id : bytes)             (* DELETE /api/destinations/{id} - also reached for id = "all" *)
+  | HDestDelete (id : bytes)             (* DELETE /api/destinations/{id}; DELETE /api/destinations/all arrives as id = "deleteAll" *)
   | HDestShowAll                         (* GET /api/destinations/all *)
   | HDestShow (id : bytes)               (* GET /api/destinations/{id} *)
   | HStreamAdd (body : srule + bytes)
